@@ -279,6 +279,39 @@ pub fn start_watchdog(property: &'static str) {
     });
 }
 
+//------------ journal -------------------------------------------------------
+
+/// With `VERIF_JOURNAL_DIR` set, every shard writes the case it is about to
+/// execute to its own file first, so that a case that kills the process
+/// (abort, stack overflow) can be identified by the driver afterwards.
+pub struct Journal {
+    file: Option<std::fs::File>,
+    sub: &'static str,
+}
+
+impl Journal {
+    pub fn open(sub: &'static str, shard: &str) -> Journal {
+        let file = std::env::var("VERIF_JOURNAL_DIR").ok().and_then(|d| {
+            std::fs::OpenOptions::new()
+                .create(true)
+                .write(true)
+                .truncate(true)
+                .open(format!("{}/{}-{}.json", d, sub, shard))
+                .ok()
+        });
+        Journal { file, sub }
+    }
+    pub fn note<C: Serialize>(&mut self, case: &C) {
+        use std::io::{Seek, SeekFrom, Write};
+        if let Some(f) = self.file.as_mut() {
+            let body = serde_json::to_vec(&json!({ "sub": self.sub, "case": case })).unwrap_or_default();
+            let _ = f.set_len(0);
+            let _ = f.seek(SeekFrom::Start(0));
+            let _ = f.write_all(&body);
+        }
+    }
+}
+
 //------------ known findings ------------------------------------------------
 
 #[derive(Clone, Debug, Default)]
@@ -522,12 +555,14 @@ where
             })
         };
         watch_register(slot.clone());
+        let journal = RefCell::new(Journal::open(self.name, &format!("shard{}", shard)));
         let mut done = 0u64;
         while done < cases && !stop.load(Ordering::Relaxed) {
             let res = runner.run(&strat, |case: C| {
                 let mut obs = Obs::default();
                 *current.lock().unwrap() = Some(case.clone());
                 slot.progress.fetch_add(1, Ordering::Relaxed);
+                journal.borrow_mut().note(&case);
                 let r = catch(|| (self.run)(&case, &mut obs));
                 let mut s = st.borrow_mut();
                 if !s.failed {
@@ -693,6 +728,10 @@ where
                             })
                         };
                         watch_register(slot.clone());
+                        let mut journal = Journal::open(
+                            self.name,
+                            &format!("enum{:?}", std::thread::current().id()).replace(['(', ')'], ""),
+                        );
                         'outer: loop {
                             let start = next.fetch_add(chunk, Ordering::Relaxed);
                             if start >= total || stop.load(Ordering::Relaxed) {
@@ -703,6 +742,7 @@ where
                                 let mut obs = Obs::default();
                                 *current.lock().unwrap() = Some(case.clone());
                                 slot.progress.fetch_add(1, Ordering::Relaxed);
+                                journal.note(&case);
                                 let r = catch(|| (self.run)(&case, &mut obs));
                                 st.record(&case, &obs);
                                 match r {
